@@ -131,6 +131,71 @@ theorem nonnullable_null_witness : ¬ NonNullableRoundtripFull := by
   have := h [some [5, 0, 0, 0], none] (by intro it hit; simp at hit; subst hit; rfl)
   revert this; decide
 
+/-- cells for which the column hands back exactly what was written -/
+theorem map_storedOf_id (o : ColOpts) (cells : List Cell)
+    (h : o.nullable = true ∨ o.enc = .dict ∨ ∀ c ∈ cells, c ≠ none) : cells.map (storedOf o) = cells := by
+  induction cells with
+  | nil => rfl
+  | cons c cs ih =>
+    have hcs : cs.map (storedOf o) = cs := ih (by
+      rcases h with h | h | h
+      · exact .inl h
+      · exact .inr (.inl h)
+      · exact .inr (.inr (fun x hx => h x (by simp [hx]))))
+    simp only [List.map_cons, hcs]
+    congr 1
+    rcases h with h | h | h
+    · simp only [storedOf]; split <;> simp [storedCell, h]
+    · simp [storedOf, h]
+    · have hc := h c (by simp)
+      cases c with
+      | none => exact absurd rfl hc
+      | some it => simp only [storedOf]; split <;> simp [storedCell_some]
+
+/-- RLE blocks (run counts as varints + inner block of run heads), any inner kind, nullable or not:
+exact for ANY list of cells the kind accepts (runs of any length below 2^29 rows per block; the run
+equality must be sound — it is for every type but f64, see `rle_eq_not_identity_witness`). -/
+theorem block_roundtrip_rle (o : ColOpts) (henc : o.enc = .rle) (heq : EqSound o.eq) (cells : List Cell)
+    (hk : KindOk o.kind cells) (hlen : cells.length < 2 ^ 29)
+    (hn : o.nullable = true ∨ ∀ c ∈ cells, c ≠ none) :
+    decodeBlock o cells.length (encodeBlock o cells) = some cells := by
+  have := blockRT_of o cells (fun l hl => plainRT_of_kindOk (hk.sublist hl)) hlen (.inr heq)
+  unfold BlockRT at this
+  rw [this, map_storedOf_id o cells (by rcases hn with h | h; exact .inl h; exact .inr (.inr h))]
+
+example : decodeBlock { kind := .fixed 1, nullable := true, enc := .rle, blockSize := 64 } 5
+    (encodeBlock { kind := .fixed 1, nullable := true, enc := .rle, blockSize := 64 } [some [7], some [7], none, none, some [7]])
+    = some [some [7], some [7], none, none, some [7]] := by decide +kernel
+
+/-- dictionary blocks (rle block of i32 keys, `i32::MIN` = NULL, + block of distinct values): exact
+for ANY list of cells, NULLs included — even in a non-nullable column, because NULL is a key. -/
+theorem block_roundtrip_dict (o : ColOpts) (henc : o.enc = .dict) (heq : EqSound o.eq) (cells : List Cell)
+    (hk : KindOk o.kind cells) (hlen : cells.length < 2 ^ 29) :
+    decodeBlock o cells.length (encodeBlock o cells) = some cells := by
+  have := blockRT_of o cells (fun l hl => plainRT_of_kindOk (hk.sublist hl)) hlen (.inr heq)
+  unfold BlockRT at this
+  rw [this, map_storedOf_id o cells (.inr (.inl henc))]
+
+example : decodeBlock { kind := .blob, nullable := false, enc := .dict, blockSize := 64 } 4
+    (encodeBlock { kind := .blob, nullable := false, enc := .dict, blockSize := 64 } [some [1, 2], none, some [], some [1, 2]])
+    = some [some [1, 2], none, some [], some [1, 2]] := by decide +kernel
+
+/-- blob / varchar blocks (u32-LE end offsets, then the bytes), nullable: exact for ANY list of items
+whose total size fits the u32 offsets (empty items and NULLs add an offset only). -/
+theorem block_roundtrip_blob (bs : Nat) (ck : CkType) (cells : List Cell)
+    (h : BlobOk cells) (hlen : cells.length < 2 ^ 29) :
+    decodeBlock { kind := .blob, nullable := true, enc := .plain, blockSize := bs, ck } cells.length
+        (encodeBlock { kind := .blob, nullable := true, enc := .plain, blockSize := bs, ck } cells)
+      = some cells := by
+  have := blockRT_of { kind := .blob, nullable := true, enc := .plain, blockSize := bs, ck } cells
+    (fun l hl => plainRT_of_kindOk (KindOk.sublist (k := .blob) h hl)) hlen (.inl rfl)
+  unfold BlockRT at this
+  rw [this, map_storedOf_id _ cells (.inl rfl)]
+
+example : decodeBlock { kind := .blob, nullable := true, enc := .plain, blockSize := 64 } 4
+    (encodeBlock { kind := .blob, nullable := true, enc := .plain, blockSize := 64 } [some [104, 105], none, some [], some [0, 1, 2]])
+    = some [some [104, 105], none, some [], some [0, 1, 2]] := by decide +kernel
+
 /-! ## block cutting and the block index -/
 
 /-- The blocks the column builder cuts partition the input, for every block size and encoding. -/
@@ -163,6 +228,43 @@ example : ((buildColumn { kind := .fixed 4, nullable := false, enc := .plain, bl
     [some [1,0,0,0], some [2,0,0,0], some [3,0,0,0]]).2.map (fun e => (e.firstRowid, e.rowCount))) = [(0, 2), (2, 1)] := by
   decide
 
+
+/-- **Column round trip.** For every block size, encoding, nullability and kind: the `.col` bytes and
+index the column builder produces decode (through every block trailer, CRC included) into blocks
+whose cells, concatenated, are the written cells (`storedOf`: identity except NULL through a
+non-nullable plain/RLE encoding), and the decoded blocks are well formed (contiguous row ids, non-empty). -/
+theorem column_roundtrip (o : ColOpts) (bt : Nat) (hbt : bt < BLOCK_TYPE_COUNT) (xs : List Cell)
+    (hk : KindOk o.kind xs) (hlen : xs.length < 2 ^ 29) (heq : o.enc = .plain ∨ EqSound o.eq) :
+    blockInfos o (buildColumn o bt xs).1 (buildColumn o bt xs).2 = some (infosOf o (cut o xs) 0)
+      ∧ (infosOf o (cut o xs) 0).flatMap (·.cells) = xs.map (storedOf o)
+      ∧ WfBlocks (infosOf o (cut o xs) 0) 0 := by
+  have hsub : ∀ ch ∈ cut o xs, ch.Sublist xs := fun ch hch => by
+    have := List.sublist_flatten_of_mem hch
+    rwa [cut_concat] at this
+  refine ⟨?_, ?_, infosOf_wf o _ 0 (cut_blocks_nonempty o xs)⟩
+  · have := blockInfos_assemble o bt hbt (cut o xs) (fun ch hch =>
+      blockRT_of o ch (fun l hl => plainRT_of_kindOk (hk.sublist (hl.trans (hsub ch hch))))
+        (by have := (hsub ch hch).length_le; omega) heq) [] 0
+    simpa [buildColumn] using this
+  · rw [infosOf_cells, cut_concat]
+
+/-- … and exactly the written cells when the column is nullable, dictionary encoded, or holds no NULL. -/
+theorem column_roundtrip_exact (o : ColOpts) (bt : Nat) (hbt : bt < BLOCK_TYPE_COUNT) (xs : List Cell)
+    (hk : KindOk o.kind xs) (hlen : xs.length < 2 ^ 29) (heq : o.enc = .plain ∨ EqSound o.eq)
+    (hn : o.nullable = true ∨ o.enc = .dict ∨ ∀ c ∈ xs, c ≠ none) :
+    ∃ blocks, blockInfos o (buildColumn o bt xs).1 (buildColumn o bt xs).2 = some blocks
+      ∧ blocks.flatMap (·.cells) = xs ∧ WfBlocks blocks 0 := by
+  obtain ⟨h1, h2, h3⟩ := column_roundtrip o bt hbt xs hk hlen heq
+  exact ⟨_, h1, by rw [h2, map_storedOf_id o xs hn], h3⟩
+
+example : ∃ blocks, blockInfos { kind := .fixed 4, nullable := true, enc := .rle, blockSize := 24, ck := .crc32 }
+      (buildColumn { kind := .fixed 4, nullable := true, enc := .rle, blockSize := 24, ck := .crc32 } 6
+        [some [1,0,0,0], none, none, some [3,0,0,0]]).1
+      (buildColumn { kind := .fixed 4, nullable := true, enc := .rle, blockSize := 24, ck := .crc32 } 6
+        [some [1,0,0,0], none, none, some [3,0,0,0]]).2 = some blocks
+    ∧ blocks.flatMap (·.cells) = [some [1,0,0,0], none, none, some [3,0,0,0]] ∧ WfBlocks blocks 0 :=
+  column_roundtrip_exact _ 6 (by decide) _ (by intro it hit; simp at hit; rcases hit with rfl | rfl <;> rfl)
+    (by decide) (.inr eqSound_bytes) (.inl rfl)
 
 /-! ## reads: the full statement and why it fails on the code that exists -/
 
